@@ -276,7 +276,13 @@ def multi_cases(ctx):
                     if np.abs(r.data[j] - q / np.linalg.norm(q)).max() > T12:
                         ctx.fail(cid, 'Quaternion.unit', 'mismatch', dict(P, law='unit', j=j), 'value %d is not the normalised value %d' % (j, j))
         # the documented N x 4 array form of the UnitQuaternion constructor: one quaternion per row, each row normalised
-        for form, mkarg in (('Nx4', lambda: np.array([q.copy() for q in qs])),):      # (a list of 4-vectors is a list of values, validated not normalised)
+        # rows that are already of unit length mixed with rows that are not (first, last, every second): each row is normalised on its own
+        urow = [np.array([1.0, 0, 0, 0]), np.array([0.6, 0, 0.8, 0]), np.array([0.5, -0.5, 0.5, 0.5])]
+        variants = [('Nx4', list(qs))]
+        if M >= 2:
+            variants += [('Nx4/unit-first', [urow[0]] + list(qs[1:])), ('Nx4/unit-last', list(qs[:-1]) + [urow[1]]), ('Nx4/unit-alternate', [urow[k % 3] if k % 2 else qs[k] for k in range(M)])]
+        for form, qsv in variants:      # (a list of 4-vectors is a list of values, validated not normalised)
+            mkarg = lambda qsv=qsv: np.array([q.copy() for q in qsv])
             cid = 'C14/UnitQuaternion(%s)/multi/M=%d' % (form, M)
             if ctx.want(cid):
                 ctx.case(cid, key=cid)
@@ -287,10 +293,10 @@ def multi_cases(ctx):
                 elif len(r.data) != M:
                     ctx.fail(cid, 'UnitQuaternion(array)', 'mismatch', dict(P, law='count'), 'expected %d values, got %d' % (M, len(r.data)))
                 else:
-                    for j, q in enumerate(qs):
+                    for j, q in enumerate(qsv):
                         if np.abs(r.data[j] - q / np.linalg.norm(q)).max() > T12:
                             ctx.fail(cid, 'UnitQuaternion(array)', 'mismatch', dict(P, law='unit', j=j), 'value %d is not the normalised row %d' % (j, j))
-                    ok2, r2 = call(lambda: sm.UnitQuaternion(np.array(r.data) if form == 'Nx4' else [x.copy() for x in r.data]))
+                    ok2, r2 = call(lambda: sm.UnitQuaternion(np.array(r.data) if form.startswith('Nx4') else [x.copy() for x in r.data]))
                     if not ok2 or len(r2.data) != M or any(np.abs(x - y).max() > T12 for x, y in zip(r2.data, r.data)):
                         ctx.fail(cid, 'UnitQuaternion(array)', 'mismatch', dict(P, law='idempotent'), 'second application changes the value')
         # poses: norm() of M values
